@@ -214,6 +214,9 @@ func gen(r *sim.Rng, tier string) *sim.Case {
 			}
 			if k == 5 || k == 6 {
 				op.D = []int{0, 5, 10, 25, 60, -1}[r.N(6)]
+				if r.Pct(25) {
+					op.D = r.Range(1, 80) // any relation between the deadline and the 10 ms poll tick
+				}
 			}
 			prog = append(prog, op)
 		}
